@@ -407,6 +407,60 @@ def obligations(tier):
     for N in range(2, maxN + 1):
         add("regression.tucker_regression:TuckerRegressor.fit", f"X-order={N + 1},scalar target", tkreg_setup(N), run_tkreg, tkreg_post, dict(x_order=N + 1, target="scalar"),
             "solve sites ≡ ridge normal equations of the block problem")
+    # ====================================================================== PARAFAC2 sweep: both block solvers work on the CURRENT model. From an iterate with arbitrary weights
+    # (a user initialisation, or the previous sweep's normalisation) the projections are computed for weights-included factors, the inner CP solver is
+    # warm-started at the same model and fits the slices projected with the projections just computed - otherwise the two exact block updates minimise
+    # different objectives and the error can rise
+    import tensorly.parafac2_tensor as _p2t
+    for normalize in (False, True):
+        def sw_setup(S):
+            K = atom("K")
+            return dict(_S=S, Xs=[S.input(f"X{i}", [atom(f"J{i}"), K]) for i in range(2)], w=S.input("w", [R]), A=S.input("A", [2, R]), B=S.input("B", [R, R]), Cc=S.input("Cm", [K, R]),
+                        P=[S.input(f"P{i}", [atom(f"J{i}"), R]) for i in range(2)], K=K)
+        def sw_call(I, normalize=normalize):
+            from .c03 import _noval
+            from tensorly.cp_tensor import CPTensor
+            S = I["_S"]
+            sym = S.name == "sym"
+            Rr = R if sym else I["A"].shape[1]
+            rec = {}
+            real_proj, real_parafac = _p2._compute_projections, _p2.parafac
+            def proj_stub(ts, fs_, svd):
+                rec["proj_fs"] = list(fs_)
+                if sym:
+                    rec["Pn"] = [G.opaque_tensor("PNEW", [G.axis_sizes(t)[0], G.axis_sizes(fs_[1])[0]], t.dtype) for t in ts]
+                else:
+                    rec["Pn"] = real_proj(ts, fs_, svd)
+                    for q in rec["Pn"]:
+                        S.record("PNEW", q)
+                return rec["Pn"]
+            def inner(X, rank, init=None, **kw):
+                rec["cp_X"], rec["cp_init"] = X, (init[0], list(init[1]))
+                if sym:
+                    return CPTensor((None, [G.opaque_tensor("INNER", list(f.shape), f.dtype) for f in init[1]]))
+                out = real_parafac(X, rank, init=init, **kw)
+                for f in out[1]:
+                    S.record("INNER", f)
+                return out
+            def go():
+                cut = LoopCut(_p2.parafac2)
+                with stubbed(_p2, _compute_projections=proj_stub, parafac=inner, _validate_parafac2_tensor=_p2t._validate_parafac2_tensor,
+                             initialize_decomposition=lambda *a, **k: (I["w"], [I["A"], I["B"], I["Cc"]], list(I["P"]))):
+                    st = cut.prefix(list(I["Xs"]), Rr, return_errors=True, tol=0, normalize_factors=normalize, linesearch=False)
+                    st["factors"] = list(st["factors"])
+                    st["rec_errors"] = []
+                    cut.body(st, 0)
+                return rec
+            return _noval(_p2t, go)
+        def sw_post(S, I, r):
+            model = SP.cp_to_tensor(S, I["w"], [I["A"], I["B"], I["Cc"]])
+            w0, f0 = r["cp_init"]
+            proj = S.stack([S.einsum("jr,jk->rk", p, x) for p, x in zip(r["Pn"], I["Xs"])], 0)
+            return [("the projections are computed for the current model, weights included", SP.cp_to_tensor(S, None, r["proj_fs"]), model),
+                    ("the inner CP solver is warm-started at the current model", SP.cp_to_tensor(S, w0, f0), model),
+                    ("the inner CP solver fits the slices projected with the projections just computed", r["cp_X"], proj)]
+        add("decomposition._parafac2:parafac2", f"normalize_factors={normalize},sweep from arbitrary weights", sw_setup, sw_call, sw_post, dict(normalize_factors=normalize),
+            "both block updates of a sweep work on the current model", assumptions=lambda I: [R <= I["K"]] + [R <= x.shape[0] for x in I["Xs"]])
     # ====================================================================== PARAFAC2 line search: what is accepted is what was judged
     for nnm in (None, [0], [0, 2]):
         def ls_setup(S):
